@@ -45,8 +45,8 @@ def d(x):
 def dexp(x):
     if x == NINF:
         return ZERO
-    if x < -2_000_000_000:
-        return ZERO
+    if x < -(10 ** 17):         # below the exponent range of the context (Emin = -10^18 + 1); nothing else is clamped:
+        return ZERO             # divergences compare e^{-a} with e^{eps} e^{-b} for a, b ~ 1e10 and need both
     return x.exp()
 
 
